@@ -12,11 +12,12 @@ EXTENDS Naturals, Integers, Sequences, FiniteSets, TLC
 SV == {"sv1", "sv2"}                 \* user defined status variables (table order sv1, sv2)
 SVX == SV \cup {"svu"}               \* svu: unknown id
 SvOrder == <<"sv1", "sv2">>
-EC == {"ec1", "ec2"}                 \* ec1: bounded [0, 10]; ec2: unbounded
+EC == {"ec1", "ec2", "ecp", "ecc"}   \* ec1: bounded [0, 10]; ec2: unbounded; ecp: the predefined EstablishCommunicationsTimeout [10, 120],
+                                     \* whose value lives in the settings; ecc: bounded [0, 100], served by the application's callbacks
 ECX == EC \cup {"ecu"}
-EcOrder == <<"ec1", "ec2">>
-EcMin == [e \in EC |-> IF e = "ec1" THEN 0 ELSE -1000000]
-EcMax == [e \in EC |-> IF e = "ec1" THEN 10 ELSE 1000000]
+EcOrder == <<"ec1", "ec2", "ecc">>    \* user constants in table order (the predefined ones precede them)
+EcMin == [e \in EC |-> CASE e = "ec1" -> 0 [] e = "ecp" -> 10 [] e = "ecc" -> 0 [] OTHER -> -1000000]
+EcMax == [e \in EC |-> CASE e = "ec1" -> 10 [] e = "ecp" -> 120 [] e = "ecc" -> 100 [] OTHER -> 1000000]
 AL == {"al1", "al2"}
 ALX == AL \cup {"alu"}
 AlOrder == <<"al1", "al2">>
@@ -79,7 +80,7 @@ Eff(s, i) ==
                   O(NoReply, IF s.al[i.a].en THEN <<E(i.a, IF i.on THEN "set" ELSE "clear")>> ELSE <<>>))
     [] i.k = "UpdateSV" -> One([s EXCEPT !.sv[i.v] = i.x], O(NoReply, <<>>))
 
-S0 == [sv |-> [v \in SV |-> 0], ec |-> [e \in EC |-> 5], al |-> [a \in AL |-> [en |-> FALSE, set |-> FALSE]]]
+S0 == [sv |-> [v \in SV |-> 0], ec |-> [e \in EC |-> IF e = "ecp" THEN 30 ELSE 5], al |-> [a \in AL |-> [en |-> FALSE, set |-> FALSE]]]
 
 (* every constant with declared bounds is within them                                               *)
 EcWithinBounds(s) == \A e \in EC : s.ec[e] >= EcMin[e] /\ s.ec[e] <= EcMax[e]
